@@ -14,7 +14,7 @@ META = dict(
     watchdog_s={"quick": 1500, "thorough": 5400},
     evaluations_counter="executions",
     min={"histories": 100, "faults_injected": 20, "faults_fired": 20, "registry_comparisons": 200, "purity_checks": 300,
-         "library_purity_checks": 200, "forward_exception_exits": 10, "nested_contexts": 10, "twin_equivalence_checks": 100, "weights_only_models": 100, "glue_models": 200},
+         "library_purity_checks": 200, "forward_exception_exits": 10, "nested_contexts": 10, "histories_with_debug_contexts": 10, "twin_equivalence_checks": 100, "weights_only_models": 100, "glue_models": 200},
     anchors=["calibrate.py:Calibration.__enter__", "calibrate.py:Calibration.__exit__",
              "calibrate.py:Calibration.calibrate_input", "calibrate.py:Calibration.calibrate_output",
              "library/ops.py:disable_extensions", "nn/qmodule.py:QModuleMixin.forward"],
@@ -412,8 +412,19 @@ def build_model(oq, r, wd, aq):
 def play(ctx, oq, model, shape, boom, r, wd, script, fault=None):
     """Run one history. Returns 'clean' | 'raised'. The registry oracle is evaluated by the caller."""
     outcome = "clean"
-    c1 = oq.Calibration(momentum=0.5, streamline=bool(script["streamline"]))
-    c2 = oq.Calibration(momentum=0.9, streamline=False)
+    # debug=True only prints a trace: every configuration of the context owes the same restoration
+    dbg = bool(script.get("debug", 0))
+    c1 = oq.Calibration(momentum=0.5, streamline=bool(script["streamline"]), debug=dbg)
+    c2 = oq.Calibration(momentum=0.9, streamline=False, debug=dbg and script["streamline"] == 0)
+    import contextlib
+    import io as _io
+
+    with contextlib.redirect_stdout(_io.StringIO()) if dbg else contextlib.nullcontext():
+        return _play(ctx, model, shape, boom, r, wd, script, fault, c1, c2)
+
+
+def _play(ctx, model, shape, boom, r, wd, script, fault, c1, c2):
+    outcome = "clean"
     x = [lifecycle.batch(r, shape, wd) for _ in range(3)]
     if fault is not None:
         reach.set_failpoint(fault[0], fault[1], lambda: Injected(f"fault in {fault[0]}"))
@@ -472,13 +483,15 @@ def run(ctx):
     for i in range(n):
         wd = DT[int(rng.integers(3))]
         aq = ["qint8", "qfloat8"][int(rng.integers(2))]
-        script = dict(shape=shapes[i % len(shapes)], streamline=int(rng.integers(2)))
+        script = dict(shape=shapes[i % len(shapes)], streamline=int(rng.integers(2)), debug=int(rng.integers(3) == 0))
         desc = dict(history=i, dtype=str(wd), activations=aq, **script)
         if not ctx.case(desc):
             continue
         r = ctx.crng
         ctx.count("histories")
         ctx.count("executions")
+        if script["debug"]:
+            ctx.count("histories_with_debug_contexts")
         sig0 = dict(shape=script["shape"])
         try:
             model, shape, boom, kind = build_model(oq, r, wd, aq)
